@@ -557,3 +557,12 @@ B("C22", "alias-counter-not-advanced", "chalk-solve/src/display/state.rs",
   "            *next_unused += 1;\n", "", "C22.NAME-INJECTIVE:alias_for_id_name:counter-advanced")
 B("C19", "skip-when-either-negative", "chalk-solve/src/coherence/solve.rs",
   "            if !lhs.is_positive() && !rhs.is_positive() {", "            if !lhs.is_positive() || !rhs.is_positive() {", "C19.ALL-PAIRS:skip-only-negative-negative")
+B("C08", "general-var-guard-after-sized", "chalk-solve/src/clauses/builtin_traits.rs",
+  """            _ if self_ty.is_general_var(db.interner(), binders) => return Err(Floundered),
+            WellKnownTrait::Sized => {
+                sized::add_sized_program_clauses(db, builder, trait_ref, ty, binders)?;
+            }""",
+  """            WellKnownTrait::Sized => {
+                sized::add_sized_program_clauses(db, builder, trait_ref, ty, binders)?;
+            }
+            _ if self_ty.is_general_var(db.interner(), binders) => return Err(Floundered),""", "C08.DISPATCH:dispatch:WellKnownTrait::Sized:general-var-flounders-first")
